@@ -44,6 +44,11 @@ func ExtraSeeds() [][]byte {
 		"package x\n\nimport (\n\t\"a\"\n\tb \"c\"\n\t. \"d\"\n\t_ \"e\"\n)\n\nvar s = `\npackage y\nimport \"z\"\n`\n\n@goht A() {\n\t%p a\n}\n\n@goht B() {\n%p b\n}\n",
 		"package x\n\n@goht T(b bool) {\n\t- if b\n\t\t%p y\n\t- else\n\t\t%p n\n\t\t%p n2\n\t- x := 1\n\t= %d x\n}\n",
 		"package x\n\n@goht T() {\n\t%p>< a\n\t%p<\n\t\t%b> c\n\t.d<> e\n\t%img/\n\t%br\n\t\\%notatag\n\t! <raw> #{s}\n\t!= s\n}\n",
+		// the last code points of the basic plane (one UTF-16 unit each) and the first beyond it (two), in fragments
+		"package x\n\nvar edge = \"\uffff\ufffe\ufffd\U00010000\" // \uffff\n\n@goht T(s string) {\n\t%p= f(\"\uffff\", s)\n\t- sep := \"\uffff\U00010000\" + s\n\t%p \uffff #{s} \U00010000 #{s}\n\t%a{title: #{s + \"\uffff\"}, k\uffff: #{s}} x #{sep}\n}\n",
+		// runes of two UTF-16 units at the start of a text, after a delimiter, in names and values, each with mapped
+		// fragments later on the same line; a combining sequence; a BOM inside a line
+		"package x\n\n@goht T(s string, b bool) {\n\t%p 😀 lead #{s} 𝒳 #{s}\n\t😀 #{s} and #{s}\n\t%a{title: \"😀\", href: #{s}, 𝒳: #{s}} 𝒳y #{s}\n\t%p= f(\"😀\", s)\n\t- x := \"𝒳\" + s\n\t.c😀d#i𝒳{e ? #{b}}[s] e\u0301 #{s}\n\t%p a\ufeffb #{s}\n\t:plain\n\t\t😀 #{s} 𝒳 #{s}\n}\n",
 	}
 	var out [][]byte
 	for _, s := range ss {
